@@ -241,6 +241,98 @@ theorem fetchmany_plain_spec (sss : Bool) (yp : Option Nat) (h : Handle) (n : Na
     (manyrows Plain.ops sss yp h (some n) p).2.2.rem = p.rem.drop n := by
   simp [manyrows, hu, effSize, Plain.ops, Plain.fetchmany, hp]
 
+/-! ### projections compose to any depth (`_translated_indexes`) -/
+
+/-- `tuplegetter(*indexes)` on a raw row -/
+def proj (c : List Nat) (raw : Row) : Row := c.map (fun i => raw.getD i 0)
+
+/-- the rows a handle sees after a chain of `columns(...)` calls, each applied to the rows
+    produced by the previous one -/
+def projAll : List (List Nat) → Row → Row
+  | [], raw => raw
+  | idxs :: rest, raw => projAll rest (proj idxs raw)
+
+/-- the metadata's `_translated_indexes` after the same chain of `_reduce` calls
+    (`none` = some call raised IndexError) -/
+def reduceAll (width : Nat) : List (List Nat) → Option (List Nat) → Option (Option (List Nat))
+  | [], cols => some cols
+  | idxs :: rest, cols =>
+    match reduceCols width cols idxs with
+    | some c => reduceAll width rest (some c)
+    | none => none
+
+/-- the rows a handle with translated indexes `cols` hands on -/
+def baseRow (cols : Option (List Nat)) (raw : Row) : Row :=
+  match cols with
+  | none => raw
+  | some c0 => proj c0 raw
+
+theorem range_getD (w i : Nat) (h : i < w) : (List.range w).getD i 0 = i := by
+  simp [List.getD, h]
+
+/-- one `_reduce`: the new translated indexes read from the raw row what the given indexes
+    read from the already projected row -/
+theorem reduce_step (width : Nat) (cols : Option (List Nat)) (idxs c : List Nat) (raw : Row)
+    (h : reduceCols width cols idxs = some c) :
+    proj c raw = proj idxs (baseRow cols raw) := by
+  cases cols with
+  | none =>
+    simp only [reduceCols] at h
+    by_cases hall : (idxs.all fun i => decide (i < (List.range width).length)) = true
+    · simp only [hall, if_true, Option.some.injEq] at h
+      subst h
+      simp only [proj, List.map_map]
+      apply List.map_congr_left
+      intro i hi
+      have hlt := (List.all_eq_true.1 hall) i hi
+      simp only [decide_eq_true_eq, List.length_range] at hlt
+      simp only [Function.comp, baseRow]
+      rw [range_getD width i hlt]
+    · rw [if_neg hall] at h; cases h
+  | some c0 =>
+    simp only [reduceCols] at h
+    by_cases hall : (idxs.all fun i => decide (i < c0.length)) = true
+    · simp only [hall, if_true, Option.some.injEq] at h
+      subst h
+      simp only [proj, List.map_map]
+      apply List.map_congr_left
+      intro i hi
+      have hlt := (List.all_eq_true.1 hall) i hi
+      simp only [decide_eq_true_eq] at hlt
+      simp [Function.comp, baseRow, proj, List.getD, List.getElem?_map, hlt]
+    · rw [if_neg hall] at h; cases h
+
+/-- **compose_translated**: for a chain of projections of *any* depth, the composed
+    `_translated_indexes` applied to the raw row give exactly the successive projections —
+    reduction by i then j … equals reduction by the composition, by induction on the chain -/
+theorem compose_translated (width : Nat) :
+    ∀ (chain : List (List Nat)) (cols : Option (List Nat)) (final : Option (List Nat)) (raw : Row),
+      reduceAll width chain cols = some final →
+      baseRow final raw = projAll chain (baseRow cols raw) := by
+  intro chain
+  induction chain with
+  | nil =>
+    intro cols final raw h
+    simp only [reduceAll, Option.some.injEq] at h
+    subst h; rfl
+  | cons idxs rest ih =>
+    intro cols final raw h
+    simp only [reduceAll] at h
+    cases hr : reduceCols width cols idxs with
+    | none => simp [hr] at h
+    | some c =>
+      rw [hr] at h
+      have := ih (some c) final raw h
+      rw [this]
+      simp only [projAll]
+      rw [← reduce_step width cols idxs c raw hr]
+      rfl
+
+/-- depth 3 with reordering at every level: `columns(2,0,1).columns(1,2).columns(1)` reads raw
+    column 1 -/
+example : reduceAll 3 [[2, 0, 1], [1, 2], [1]] none = some (some [1]) ∧
+    projAll [[2, 0, 1], [1, 2], [1]] [10, 11, 12] = [11] := by decide
+
 /-! ### first() / one() / one_or_none() -/
 
 /-- the remainder as the property sees it: projected and, under `unique()`, reduced to
